@@ -201,7 +201,7 @@ def load_known():
 
 def match_known(prop, violation, known):
     for k in known.get('findings', []):
-        if k['property'] == prop and k['sig'] == violation['sig']:
+        if k['property'] == prop and violation['sig'] in k.get('sigs', []):
             return k
     return None
 
@@ -534,6 +534,37 @@ def _confirm_and_shrink(task):
         small, res2 = plan, res
     return {'confirmed': True, 'plan': small, 'violation': res2['violation'], 'digest': res2['digest'],
             'shrink_runs': nruns}
+
+
+def _replay_witness(path):
+    with open(os.path.join(VERIF, path)) as f:
+        rp = json.load(f)
+    from . import pool
+    pool.limit_memory()
+    res = replay_plan(rp['plan'])
+    return {'violation': res['violation'], 'harness_error': res['harness_error']}
+
+
+def report_known_findings(prop, known, out=print):
+    """Replay the witness plan of every recorded finding of this property (in a forked child: a
+    witness may damage the process on purpose).  While it still fails: one KNOWN-FINDING line."""
+    from . import pool
+    n = 0
+    for k in known.get('findings', []):
+        if k.get('property') != prop or not k.get('witness'):
+            continue
+        box = {}
+        pool.fork_map(_replay_witness, [k['witness']], 1, task_timeout=300,
+                      on_result=lambda task, r, err: box.update(r=r, err=err))
+        r = box.get('r')
+        if r is not None and r['violation'] is not None:
+            out('KNOWN-FINDING: property=%s %s' % (prop, k['what']))
+            n += 1
+        elif r is not None and r['harness_error'] is None:
+            out('note: the witness of known finding %s no longer fails on this tree' % k.get('id'))
+        else:
+            out('HARNESS-ERROR: witness of known finding %s could not be replayed: %s' % (k.get('id'), box.get('err') or r))
+    return n
 
 
 def handle_violations(prop, agg, known, out=print):
